@@ -68,9 +68,15 @@ def memmem_scan_rule(rep, mod, rule='R-MEMMEM-SCAN'):
     # walk); taken from the candidate handed to memcmp.  All clauses below are stated on positions, so they do not
     # depend on which of the two forms the loop is written in.
     delta = ({}, 0)
-    for c in f.calls('memcmp'):
-        if c.block in L['blocks']:
-            P = lin_of(f, c.ops[0])
+    for r_ in f.returns():
+        ri_ = f.inst_of(r_.ops[0]) if r_.ops else None
+        cands = []
+        if ri_ is not None and ri_.op == 'phi':
+            cands = [v for (bb, v) in ri_.incoming if f.bmap[bb] in L['blocks'] and v.k != 'null']
+        elif r_.block in L['blocks'] and r_.ops:
+            cands = [r_.ops[0]]
+        for v in cands:
+            P = lin_of(f, v)
             if P[0].get(('i', cur.id)) == 1:
                 delta = lsub(P, CUR)
 
@@ -149,7 +155,37 @@ def memmem_scan_rule(rep, mod, rule='R-MEMMEM-SCAN'):
                 zero = t.d['t'] if c.pred == 'eq' else t.d['f']
                 if call is not None and call.op == 'call' and call.callee == 'memcmp' and (tgt is None or f.bmap[zero] is tgt):
                     a0, a1, a2 = [lin_of(f, o) for o in call.ops[:3]]
-                    guarded = a0 == ladd(CUR, delta) and a1 == ({A[2]: 1}, 0) and a2 == ({A[3]: 1}, 0)
+                    R = ladd(CUR, delta)
+                    k0 = lsub(a0, R)
+                    if k0[0] == {} and 0 <= k0[1] <= 4 and a1 == ({A[2]: 1}, k0[1]) and a2 == ({A[3]: 1}, -k0[1]):
+                        # the first k bytes are compared one by one (position[j] == needle[j] on an edge every path to the
+                        # memcmp uses), the remaining s_len - k bytes by memcmp(position + k, needle + k, s_len - k)
+                        guarded = True
+                        for j in range(k0[1]):
+                            edges = []
+                            for e in f.all_insts():
+                                if e.op != 'icmp' or e.pred not in ('eq', 'ne'):
+                                    continue
+                                sides = set()
+                                for o in e.ops:
+                                    x = o
+                                    for _ in range(3):
+                                        xi = f.inst_of(x)
+                                        if xi is not None and xi.op in ('sext', 'zext'):
+                                            x = xi.ops[0]
+                                        else:
+                                            break
+                                    xi = f.inst_of(x)
+                                    if xi is not None and xi.op == 'load':
+                                        pl = lin_of(f, xi.ops[0])
+                                        if pl == ladd(R, ({}, j)):
+                                            sides.add('text')
+                                        elif pl == ({A[2]: 1}, j):
+                                            sides.add('needle')
+                                if sides == {'text', 'needle'}:
+                                    edges += f.edges_implying(e, e.pred == 'eq')
+                            if not edges or not f.only_through_edges(edges, call.block):
+                                guarded = False
         ok = isc and guarded
         detail = None if ok else ('the value returned from the loop is %s and the return is %s by '
                                   'memcmp(cursor, s, s_len) == 0' % ('the cursor' if isc else 'not the cursor',
